@@ -454,15 +454,15 @@ var c17BuiltinTests = []string{"defined", "empty", "null", "none", "even", "odd"
 // positions for a name N: F stands for the filter application, G(..) for the function call, T for the test
 var c17FilterSites = []string{"{{ xs|N }}", "{{ xs|N|length }}", "{{ xs|reverse|N }}", "{% set v = xs|N %}[{{ v }}]", "{% if xs|N %}y{% else %}n{% endif %}", "{% for i in xs|N %}{{ i }}{% else %}none{% endfor %}",
 	"{% for i in xs|N|reverse %}{{ i }}{% else %}none{% endfor %}", "{% for i in xs|reverse|N %}{{ i }}{% else %}none{% endfor %}", "a{% apply N %}x{% endapply %}c", "{{ max(1, n|N) }}", "{{ nope|default(xs|N) }}",
-	"{% include 'leaf' with {'v': xs|N} %}", "{% macro m(x) %}{{ x|N }}{% endmacro %}{{ m(s) }}", "{{ (xs|N) ? 'a' : 'b' }}", "{{ [xs|N]|length }}"}
+	"{% include 'leaf' with {'v': xs|N} %}", "{% macro m(x) %}{{ x|N }}{% endmacro %}{{ m(s) }}", "{{ (xs|N) ? 'a' : 'b' }}", "{{ [xs|N]|length }}", "a{% do xs|N %}b", "a{% do 1 + (n|N) %}b"}
 var c17FunctionSites = []string{"{{ N(xs) }}", "{{ N(1, 3) }}", "{{ N(xs)|length }}", "{% set v = N(xs) %}[{{ v }}]", "{% if N(xs) %}y{% else %}n{% endif %}", "{% for i in N(xs) %}{{ i }}{% else %}none{% endfor %}",
 	"{% for i in N(1, 3) %}{{ i }}{% else %}none{% endfor %}", "{% for i in N(xs)|reverse %}{{ i }}{% else %}none{% endfor %}", "{{ nope|default(N(xs)) }}", "{% include 'leaf' with {'v': N(xs)} %}",
-	"{% macro m(x) %}{{ x }}{% endmacro %}{{ m(N(xs)) }}", "{{ N(xs) ? 'a' : 'b' }}", "{{ [N(xs)]|length }}", "{% for i in xs %}{{ N(i, 2) }}{% endfor %}", "{% apply upper %}{{ N(xs) }}{% endapply %}"}
+	"{% macro m(x) %}{{ x }}{% endmacro %}{{ m(N(xs)) }}", "{{ N(xs) ? 'a' : 'b' }}", "{{ [N(xs)]|length }}", "{% for i in xs %}{{ N(i, 2) }}{% endfor %}", "{% apply upper %}{{ N(xs) }}{% endapply %}", "a{% do N(xs) %}b"}
 var c17TestSites = []string{"{{ n is N ? 'a' : 'b' }}", "{{ n is N(2) ? 'a' : 'b' }}", "{{ n is not N ? 'a' : 'b' }}", "{% if n is N %}y{% else %}n{% endif %}", "{% if n is N(2) %}y{% else %}n{% endif %}", "{% set v = n is N %}[{{ v }}]",
-	"{% for i in xs %}{% if i is N %}y{% endif %}{% endfor %}", "{% for i in (n is N) ? xs : [] %}{{ i }}{% else %}none{% endfor %}"}
+	"{% for i in xs %}{% if i is N %}y{% endif %}{% endfor %}", "{% for i in (n is N) ? xs : [] %}{{ i }}{% else %}none{% endfor %}", "a{% do n is N %}b", "a{% do n is not N(2) %}b"}
 
 func TestC17Overrides(t *testing.T) {
-	r := NewRec(t, "C17", "exhaustive: every built-in filter (31), function (13) and test (15) name re-registered by the user with a failing callback and used in 15 / 15 / 8 positions (print, chain positions, set, if, for sequence bare and in chains, apply tag, arguments, include-with, macro, conditional, list element), plus the tags that apply a filter on their own; non-trivial = the failing callback was invoked")
+	r := NewRec(t, "C17", "exhaustive: every built-in filter (31), function (13) and test (15) name re-registered by the user with a failing callback and used in 17 / 16 / 10 positions (print, chain positions, set, if, for sequence bare and in chains, apply tag, do tag, arguments, include-with, macro, conditional, list element), plus the tags that apply a filter on their own; non-trivial = the failing callback was invoked")
 	defer r.Flush()
 	r.SetExhaustive()
 	cases := []C17OverrideCase{
@@ -500,7 +500,42 @@ func TestC17Overrides(t *testing.T) {
 	}
 }
 
-func init() { reg("C17.override", checkC17Override) }
+// TestC17Unknown: the same sites with a name nothing is registered under.
+func TestC17Unknown(t *testing.T) {
+	r := NewRec(t, "C17", "exhaustive: an unregistered filter / function / test name in each of the 17 / 16 / 10 sites of TestC17Overrides; oracle: Render returns an error and no output; all cases non-trivial")
+	defer r.Flush()
+	r.SetExhaustive()
+	for kind, sites := range map[string][]string{"filter": c17FilterSites, "function": c17FunctionSites, "test": c17TestSites} {
+		for _, site := range sites {
+			src := strings.ReplaceAll(site, "N", "no_such_"+kind)
+			c := C17OverrideCase{Filter: "no_such_" + kind, Kind: "unknown-" + kind, Src: src}
+			r.Case(src, true, c, "kind:"+kind)
+			if err := checkC17Unknown(c); err != nil {
+				r.FailEnumKey(t, "C17.unknown", kind, c, err)
+			}
+		}
+	}
+}
+
+func checkC17Unknown(c C17OverrideCase) error {
+	e := newEngine(map[string]string{"main": c.Src, "leaf": "({{ v }})"})
+	r := render(e, "main", map[string]interface{}{"xs": []interface{}{3, 1, 2}, "s": " a  b ", "n": 4})
+	if r.Panic != "" {
+		return fmt.Errorf("panic: %s", r.Panic)
+	}
+	if r.Err == "" {
+		return fmt.Errorf("the name %q cannot be resolved but Render returned %s with a nil error; source %s", c.Filter, q(r.Out), q(c.Src))
+	}
+	if r.Out != "" {
+		return fmt.Errorf("partial output %s with the error; source %s", q(r.Out), q(c.Src))
+	}
+	return nil
+}
+
+func init() {
+	reg("C17.override", checkC17Override)
+	reg("C17.unknown", checkC17Unknown)
+}
 
 // ---- failing loaders ---------------------------------------------------------------------------
 
